@@ -30,6 +30,14 @@ def lit_variants(y, mo, d, r):
     out.append([(day + " %02d:%02d:00" % (h, mi), "second"), (day + " %02d:00:00" % h, "second"),
                 (day + " 00:00:00", "second"), (day + " %02d:00" % h, "minute")][z])
     out.append((day + " 00", "hour"))
+    # one-digit month and day, written without the leading zero (in any combination)
+    sep2 = r.choice(["-", ":"])
+    mo_s = r.choice(["%d" % mo, "%02d" % mo])
+    d_s = "%d" % d if mo_s != "%d" % mo or r.chance(1, 2) else "%02d" % d
+    if mo < 10 or d < 10:
+        short = "%04d%s%s%s%s" % (y, sep2, mo_s, sep2, d_s)
+        if short != day:
+            out.append((short, "day"))
     return out
 
 
